@@ -52,6 +52,8 @@ func (o c11Op) String() string {
 			return fmt.Sprintf("SetWithTTL(k%d,cost=%d,ttl=%v)", o.Key, o.Cost, c11TTLs[o.TTL])
 		}
 		return fmt.Sprintf("Set(k%d,cost=%d)", o.Key, o.Cost)
+	case "setmap":
+		return fmt.Sprintf("Set(k%d,cost=%d)[map phase only: its event is still queued at save time]", o.Key, o.Cost)
 	case "get":
 		return fmt.Sprintf("Get(k%d)+drain", o.Key)
 	case "del":
@@ -149,6 +151,15 @@ func (c c11Cfg) alphabet() []c11Op {
 	if has("climb") {
 		a = append(a, c11Op{Kind: "climb-flip"}, c11Op{Kind: "climb-keep"})
 	}
+	if has("setmap") {
+		// a non-quiescent save: the map phase of a cost-changing Set has happened, its UPDATE event has not reached the
+		// policy (always the last operation before the save: the event is never delivered in this harness)
+		for k := 0; k < c.NKeys; k++ {
+			for _, co := range c.Costs {
+				a = append(a, c11Op{Kind: "setmap", Key: k, Cost: co})
+			}
+		}
+	}
 	return a
 }
 
@@ -215,6 +226,12 @@ func (r *c11Run[K, V]) apply(s *Store[K, V], o c11Op) {
 		se, ok := s.getFromShard(k, h, s.shards[idx])
 		if ok {
 			s.drainRead([]ReadBufItem[K, V]{{entry: se.entry, hash: h}})
+		}
+	case "setmap":
+		k := r.ty.kf(o.Key)
+		h, idx := s.index(k)
+		if _, ok := s.shards[idx].get(k); ok {
+			s.setShard(s.shards[idx], h, k, r.ty.vf(o), o.Cost, 0, false)
 		}
 	case "del":
 		s.Delete(r.ty.kf(o.Key))
@@ -660,8 +677,16 @@ func (r *c11Run[K, V]) checkOne(ops []c11Op, sn *c11Snap[K, V], target int, elap
 		}
 	}
 
+	// a save with a cost change still queued: the map-side cost differs from the policy's; the capacity clause and the
+	// comparison "resident cost == policy total" speak about drained states only
+	pending := false
+	for _, e := range sn.byKey {
+		if e.w != e.pw {
+			pending = true
+		}
+	}
 	// ---- capacity and consistency of the loaded store ----
-	if ln.mapCost > int64(target) {
+	if ln.mapCost > int64(target) && !pending {
 		// classify: was some entry admitted although its cost exceeded the room left in its region?
 		cause := "unexplained"
 		var wl, tl, pl int64
@@ -714,7 +739,7 @@ func (r *c11Run[K, V]) checkOne(ops []c11Op, sn *c11Snap[K, V], target int, elap
 		}
 		sum += rs
 	}
-	if int64(ln.weighted) != sum || int64(ln.estimated) != sum || ln.mapCost != sum {
+	if int64(ln.weighted) != sum || int64(ln.estimated) != sum || (ln.mapCost != sum && !pending) {
 		bad("size-accounting", "total", fmt.Sprintf("weightedSize=%d EstimatedSize=%d resident cost=%d sum of policy weights=%d", ln.weighted, ln.estimated, ln.mapCost, sum), 0)
 	}
 	// every TTL entry is scheduled exactly once, no other entry is
@@ -902,6 +927,9 @@ func (r *c11Run[K, V]) explore() {
 		var next []node
 	level:
 		for _, nd := range frontier {
+			if n := len(nd.ops); n > 0 && nd.ops[n-1].Kind == "setmap" {
+				continue // its event is never delivered here: a save point only, not a state to continue from
+			}
 			for _, o := range alpha {
 				if !env.Deadline.IsZero() && time.Now().After(env.Deadline) {
 					res.Cap(fmt.Sprintf("deadline during depth %d", depth+1+cfg.Prefix))
